@@ -248,8 +248,8 @@ type QInterval struct {
 type QReadings struct{ NaN0, NaN1 bool }
 
 // QuantileRef computes what HistogramQuantile may return for a count vector.
-// With g = floor(q*total) (both neighbours when the exact product is within
-// 1e-12 relative of an integer without being one) the ranked sample is the
+// With g = floor(q*total) in exact arithmetic (plus the floor of the float64
+// product and k when q == float64(k)/float64(total), see below) the ranked sample is the
 // one of 0-based index g, or g-1 (1-based reading). nanOK: at least one
 // reading puts it in the under/over count or beyond the ends. ivs: one entry
 // per reading that puts it in a bin.
@@ -271,16 +271,29 @@ func QuantileRefR(under uint64, counts []uint64, over uint64, q float64) (nanOK 
 	g := fl.Int64()
 	gs = append(gs, g)
 	if !p.IsInt() {
-		pf, _ := p.Float64()
-		near := math.Round(pf)
-		if math.Abs(pf-near) <= 1e-12*math.Max(1, pf) {
-			rankAmbiguous = true
-			k := int64(near)
-			gs = gs[:0]
-			if k >= 1 {
-				gs = append(gs, k-1)
+		// The exact floor is the answer. Two other answers are within
+		// rounding distance and accepted as well: the floor of the correctly
+		// rounded float64 product (it can round up to the next integer), and
+		// k when q is the float64 nearest to k/total (an implementation that
+		// compares j/total with q sees equality there).
+		add := func(k int64) {
+			for _, o := range gs {
+				if o == k {
+					return
+				}
 			}
-			gs = append(gs, k)
+			if k >= 0 {
+				gs = append(gs, k)
+				rankAmbiguous = true
+			}
+		}
+		fp := float64(total) * q
+		if fp >= 0 && fp < 9e15 {
+			add(int64(math.Floor(fp)))
+		}
+		pf, _ := p.Float64()
+		if k := math.Round(pf); k >= 1 && total > 0 && float64(k)/float64(total) == q {
+			add(int64(k))
 		}
 	}
 	for _, g := range gs {
